@@ -103,6 +103,12 @@ def build(spec):
         coef = coef * (getattr(vform, spec['fn'])(arg) if spec['fn'] != 'id' else arg)
     if spec['par']:
         coef = coef * V.parameter('a')
+    if spec.get('mat_kind'):
+        # one entry of a non-square matrix-valued parameter / input field
+        shp = tuple(spec.get('mat_shape', [2, 3]))
+        Bm = V.parameter('B', shape=shp) if spec['mat_kind'] == 'param' else V.input('G', shape=shp)
+        i, j = spec['mat_ij']
+        coef = coef * Bm[i, j]
 
     def D(w):
         if spec['dtimes'] == 0:
@@ -139,6 +145,8 @@ def base_spec(s):
             'spaces': [0, 0],
             'c': s.pick([2.0, 3.0, 0.5, 1e-13]), 'fn': fn, 'in_shape': s.pick([[], [], [2]]), 'phys': bool(s.choice(2)), 'upd': False,
             'in_deriv': False, 'in_comp': 0, 'vop': s.pick(['', '', '+']),
+            'mat_kind': s.pick(['', '', '', 'param', 'input']), 'mat_shape': s.pick([[2, 3], [3, 2], [2, 2]]),
+            'mat_ij': [s.choice(2), s.choice(2)],
             'par': bool(s.choice(2)), 'dax': s.choice(dim), 'dtimes': 0 if comps else s.choice(3), 'dpara': False,
             'meas': {'volume': 'dx', 'nomeasure': 'none', 'boundary': 'ds', 'boundary-nomeasure': 'none'}[kind],
             'op': s.pick(['', '+', '-']), 'c2': s.pick([1.5, 4.0])}
@@ -197,6 +205,14 @@ def mutations(spec):
     if spec['comps'] and spec['dim'] == 3:
         mut('component-count', comps=(2 if spec['comps'] == 3 else 3))
     mut('parameter', par=not spec['par'])
+    if spec.get('mat_kind'):
+        shp = spec.get('mat_shape', [2, 3])
+        for i in range(shp[0]):
+            for j in range(shp[1]):
+                if [i, j] != list(spec['mat_ij']):
+                    mut('matrix-entry', mat_ij=[i, j])
+        mut('matrix-shape', mat_shape=[shp[1], shp[0]], mat_ij=[min(spec['mat_ij'][0], shp[1] - 1), min(spec['mat_ij'][1], shp[0] - 1)])
+        mut('matrix-kind', mat_kind={'param': 'input', 'input': 'param'}[spec['mat_kind']])
     return out
 
 
@@ -446,6 +462,7 @@ def run_case(ctx):
     ctx.nontrivial = pair_hit
     ctx.state = (canon(pool[0]), tuple(sorted(attrs.values())))
     ctx.sim_time = float(nreq)
+    ctx.interleaving = [t[:3] if isinstance(t, list) else 'pool' for t in ctx.trace]
 
 
 def RAISED():
